@@ -57,12 +57,12 @@ type lpath struct {
 }
 
 type loopAn struct {
-	c      *Ctx
-	pkg    *packages.Package
-	fset   *token.FileSet
-	fn     *ast.FuncDecl
+	c        *Ctx
+	pkg      *packages.Package
+	fset     *token.FileSet
+	fn       *ast.FuncDecl
 	eofFalse map[string]bool // helper functions verified end-of-input-false
-	over   bool              // path explosion
+	over     bool            // path explosion
 }
 
 // manual table: loops whose progress is semantic.  Keyed function#ordinal.
